@@ -1,3 +1,4 @@
+import Harper.Driver.MergeRules
 import Harper.Driver.Rules2
 import Harper.Driver.PatternRules
 import Harper.Driver.Leaves
@@ -118,7 +119,12 @@ def handlers : List (String × (List String → String)) := [
   ("prule", PatternRules.handlePRule),
   ("pmtl", PatternRules.handlePMtl),
   ("rule2", Rules2.handleRule2),
-  ("rule2toks", Rules2.handleRule2Toks)
+  ("rule2toks", Rules2.handleRule2Toks),
+  ("mrule", Harper.Driver.MergeRules.handleMRule),
+  ("mchild", Harper.Driver.MergeRules.handleMChild),
+  ("mrulem", Harper.Driver.MergeRules.handleMRuleM),
+  ("mmtl", Harper.Driver.MergeRules.handleMMtl),
+  ("spellr", Harper.Driver.MergeRules.handleSpellR)
 ]
 
 def handle (line : String) : String :=
